@@ -86,7 +86,8 @@ structure EncData where
 /-- `argon2.Version`. -/
 def argonVersion : Int := 0x13
 
-def algAES : Bytes := "AES-256-GCM".toUTF8.toList
+/-- the bytes of "AES-256-GCM". -/
+def algAES : Bytes := [65, 69, 83, 45, 50, 53, 54, 45, 71, 67, 77]
 
 def nonceSize : Nat := 12
 
@@ -98,13 +99,12 @@ structure KeyCrypto where
   aeadOpen : Bytes → Bytes → Bytes → Option Bytes
 
 /-- … with the laws the theorems use as fields: opening what was sealed under the same key and nonce gives the
-plaintext back; (idealised authenticity) whatever opens under a key and nonce was sealed under that key and
-nonce, and sealing is injective in key and plaintext together; the KDF is injective in the passphrase. -/
+plaintext back, and AES-GCM appends a 16-byte tag. (Authenticity — nothing else opens — is an explicit
+hypothesis about the key and nonce at hand in the theorems that need it: as a law over *all* keys it would
+be unsatisfiable.) -/
 structure LawfulKeyCrypto extends KeyCrypto where
   open_of_seal : ∀ k n m, aeadOpen k n (aeadSeal k n m) = some m
-  open_only_sealed : ∀ k n c m, aeadOpen k n c = some m → c = aeadSeal k n m
-  seal_injective : ∀ k k' n m m', aeadSeal k n m = aeadSeal k' n m' → k = k' ∧ m = m'
-  kdf_injective : ∀ p p' a, kdf p a = kdf p' a → p = p'
+  seal_length : ∀ k n m, (aeadSeal k n m).length = m.length + 16
 
 def encArgon (a : Argon) : Bytes :=
   (if a.version = 0 then [] else encVarintField 1 (int64ToU a.version)) ++
@@ -202,40 +202,45 @@ def checkArgon (a : Argon) : Option DecErr :=
   else if a.iterations = 0 then some .iterations
   else none
 
+/-- the per-curve length check on the decrypted bytes. -/
+def keyLengthOK (curve : Nat) (key : Bytes) : Bool :=
+  !((curve = curve25519 ∧ key.length ≠ 64) ∨ (curve = curveP256 ∧ key.length ≠ 32))
+
+/-- `DecryptAndUnmarshalSigningPrivateKey` after the protobuf message has been decoded. -/
+def decryptMsg (K : KeyCrypto) (passphrase : Bytes) (curve : Nat) (d : EncData) : Except DecErr (Nat × Bytes) :=
+  match d.metadata with
+  | none => .error .noMetadata
+  | some md =>
+    match md.argon with
+    | none => .error .noArgon
+    | some a =>
+      match checkArgon a with
+      | some e => .error e
+      | none =>
+        if md.algorithm ≠ algAES then .error .algorithm
+        else if a.version ≠ argonVersion then .error .argonVersion
+        -- an absent salt is replaced by a fresh random one inside aes256DeriveKey: the key cannot match
+        else if a.salt.length = 0 then (if d.ciphertext.length ≤ nonceSize then .error .blobShort else .error .aead)
+        else if a.salt.length < 16 then .error .saltShort
+        else if d.ciphertext.length ≤ nonceSize then .error .blobShort
+        else
+          match K.aeadOpen (K.kdf passphrase a) (d.ciphertext.take nonceSize) (d.ciphertext.drop nonceSize) with
+          | none => .error .aead
+          | some key => if keyLengthOK curve key then .ok (curve, key) else .error .keyLength
+
+def bannerCurve (banner : String) : Option Nat :=
+  if banner = Gen.cert_EncryptedEd25519PrivateKeyBanner then some curve25519
+  else if banner = Gen.cert_EncryptedECDSAP256PrivateKeyBanner then some curveP256 else none
+
 /-- `DecryptAndUnmarshalSigningPrivateKey` on a decoded PEM block (`banner`, `body`). -/
 def decrypt (K : KeyCrypto) (passphrase : Bytes) (banner : String) (body : Bytes) : Except DecErr (Nat × Bytes) :=
-  let curve : Option Nat :=
-    if banner = Gen.cert_EncryptedEd25519PrivateKeyBanner then some curve25519
-    else if banner = Gen.cert_EncryptedECDSAP256PrivateKeyBanner then some curveP256 else none
-  match curve with
+  match bannerCurve banner with
   | none => .error .banner
   | some curve =>
     if body.length = 0 then .error .empty else
     match decEncData (body.length + 1) {} body with
     | none => .error .proto
-    | some d =>
-      match d.metadata with
-      | none => .error .noMetadata
-      | some md =>
-        match md.argon with
-        | none => .error .noArgon
-        | some a =>
-          match checkArgon a with
-          | some e => .error e
-          | none =>
-            if md.algorithm ≠ algAES then .error .algorithm
-            else if a.version ≠ argonVersion then .error .argonVersion
-            -- an absent salt is replaced by a fresh random one inside aes256DeriveKey: the key cannot match
-            else if a.salt.length < 16 ∧ a.salt.length ≠ 0 then .error .saltShort
-            else if d.ciphertext.length ≤ nonceSize then .error .blobShort
-            else if a.salt.length = 0 then .error .aead
-            else
-              match K.aeadOpen (K.kdf passphrase a) (d.ciphertext.take nonceSize) (d.ciphertext.drop nonceSize) with
-              | none => .error .aead
-              | some key =>
-                if curve = curve25519 ∧ key.length ≠ 64 then .error .keyLength
-                else if curve = curveP256 ∧ key.length ≠ 32 then .error .keyLength
-                else .ok (curve, key)
+    | some d => decryptMsg K passphrase curve d
 
 /-- `EncryptAndMarshalSigningPrivateKey` for given random nonce and (already present or fresh) salt: the banner
 and the PEM body; `none` = invalid curve / KDF refusal (wrong Argon2 version, short salt). -/
